@@ -273,7 +273,15 @@ async def stop_daemons(
                 delays.append(timeout + (backoff or 0) - age)
 
         elif timeout is not None:
-            if not stopper.is_set(reason=stoppers.DaemonStoppingReason.DAEMON_ABANDONED):
+            # Never skip the forced termination, even if this check comes too late for its time window.
+            if not stopper.is_set(reason=stoppers.DaemonStoppingReason.DAEMON_CANCELLED):
+                stopper.set(reason=stoppers.DaemonStoppingReason.DAEMON_CANCELLED)
+                logger.debug(f"{handler} is signalled to exit by force.")
+                daemon.task.cancel()
+                await _wait_for_instant_exit(settings=settings, daemon=daemon)
+            if daemon.task.done():  # due to "instant exit"
+                pass
+            elif not stopper.is_set(reason=stoppers.DaemonStoppingReason.DAEMON_ABANDONED):
                 stopper.set(reason=stoppers.DaemonStoppingReason.DAEMON_ABANDONED)
                 logger.warning(f"{handler} did not exit in time. Leaving it orphaned.")
                 warnings.warn(f"{handler} did not exit in time.", ResourceWarning)
